@@ -76,7 +76,7 @@ MANIFEST = {
             "(b1u.<pairs>), sends that have to WAIT in the session's delay queue (dly: three CONs and a NON back to back with "
             "NSTART = 1, a lost first transmission with CONs queued behind it) and CoAP over TCP on the kernel's loopback (tcp: "
             "a TCP endpoint, two client sessions, CSM exchange, 400- and 1200-byte messages that make coap_read_session grow the "
-            "receive PDU; a session that is still up must still be served after a failure closed another one) are run on "
+            "receive PDU; a session that is still up must still be served after a failure closed another one; ws: the same two sessions over CoAP over WebSockets) are run on "
             "the real code with every single allocation request failing (about 3600 runs; thorough: every pair, capped at 40000 per scenario, 1500 per generated order, 8000 / 6000 for oscobs / echo), "
             "each followed by a canary exchange on the same contexts, and "
             "judged by ASan/UBSan, the verified ledger monitor on the REAL allocation trace, LSan, PDU-consumed evidence, the canary, "
@@ -153,7 +153,7 @@ RULE = ("(1) helper-layer scripts `ahelp k1 k2 <ops>`: random sequences (4..16 c
         "and to /put, 2 fixed + 2 generated interleavings, thorough 4: the unknown-resource transfer first or second, final "
         "block early, repeats, the /put transfer complete or left unfinished), dly (sends waiting in the delay queue: second and "
         "third CON of a burst, CONs behind a retransmission), tcp (CoAP over TCP on loopback: two sessions, messages of 400 and "
-        "1200 bytes, a session still up must still be served): every single failing request index k (quick and thorough) and pairs (k, k2) (quick: a "
+        "1200 bytes, a session still up must still be served), ws (the same over CoAP over WebSockets: HTTP upgrade on loopback, session->ws, the frame buffer of coap_ws_write, the receive PDU of the WS branch of coap_read_session): every single failing request index k (quick and thorough) and pairs (k, k2) (quick: a "
         "seeded sample of 4000, thorough: every pair of a scenario up to 40000 per scenario, 1500 per generated b1o / b1u order, 8000 of oscobs, 6000 of echo; a seeded sample beyond), each "
         "followed by a canary exchange, judged by ASan/UBSan, the Lean-verified ledger monitor on the real allocation trace, "
         "LSan, PDU-consumed evidence, 'a 2.xx body that claims to be complete is the body' (obsre: 'a notification is computed "
@@ -187,7 +187,7 @@ ASSUMPTIONS = ["PROVED only for the helper layer (PDU init/resize/token/option/d
                "send skeleton: UDP client session, ESTABLISHED or not yet (state forced by the script: E0 = CONNECTING, E1 = "
                "coap_session_connected), block mode off, no OSCORE, no Echo pending, message ids pairwise distinct (the `mid already "
                "in use` refusal of coap_session_delay_pdu does not occur), drain as for an unreliable transport",
-               "tcp scenario: real loopback TCP sockets; the harness waits in real time (at most 2 s) until nothing is in flight "
+               "tcp / ws scenarios: real loopback TCP sockets; the harness waits in real time (at most 2 s) until nothing is in flight "
                "(SIOCOUTQ = 0 on every connection, both sides agree on the number of connections) before it lets virtual time pass",
                "observer model: one observable resource, one UDP server session, request code not FETCH (payload copied but not part "
                "of the key), no observe_added / observe_deleted callbacks, COAP_RESOURCE_MAX_SUBSCRIBER = 0; add_observer_spec's ledger "
@@ -215,7 +215,7 @@ B1O_PAIR_CAP = 1500     # ... per generated b1o.<order> / b1u.<pairs> scenario (
 # a seeded sample keeps the thorough tier inside its 30 minutes
 SCN_PAIR_CAP = {"oscobs": 8000, "echo": 6000}
 SCENARIOS = ["uri", "pdu", "rr", "b1", "b2", "obs", "setup", "osc", "h508", "wkc", "b1raw", "b2raw", "obsblk", "cache", "async", "obsre",
-             "obsfetch", "oscobs", "echo", "xtok", "dly", "tcp"]
+             "obsfetch", "oscobs", "echo", "xtok", "dly", "tcp", "ws"]
 # parametrised scenario b1o.<digits>: the five hand-built Block1 requests of b1raw in a generated order (repeats allowed);
 # these two always run (the final block early, and again before the gap is filled / a repeated middle block, a block after the end)
 B1O_FIXED = ["b1o.0442130", "b1o.4400123312"]
@@ -246,6 +246,7 @@ EXPECT0 = {
     "xtok": "req2,rsp2,c2.05,c2.05,nack0,body0/0,put0/0",
     "dly": "dq2,dq0,dq2,dq0,req7,rsp7,c2.05,c2.05,c2.05,c2.05,c2.05,c2.05,c2.05,nack0,body0/0,put0/0",
     "tcp": "sess11,est11/2,tput4/0,srvs2,up2,req7,rsp7,c2.04,c2.04,c2.04,c2.05,c2.04,c2.05,c2.05,nack0,body0/0,put0/0",
+    "ws": "sess11,est11/2,tput4/0,srvs2,up2,req7,rsp7,c2.04,c2.04,c2.04,c2.05,c2.04,c2.05,c2.05,nack0,body0/0,put0/0",
     "obsfetch": "subs1,notify1,subs2,notify1,cancel1,subs1,cancel1,subs0,notify0,req7,rsp7,c2.05,c2.05,c2.05,c2.05,c2.05,c2.05,c2.05,nack0,body0/0,put0/0",
 }
 
@@ -736,7 +737,7 @@ def symptoms(c):
     if re.search(r"(^|,)deaf\d", out):
         what["deaf"] = ("a TCP session that is still established is no longer served after the failure hit ANOTHER session "
                         "(answered/asked: %s)" % re.search(r"deaf(\d+/\d+)", out).group(1))
-    if scn == "tcp" and re.search(r"tput\d+/[1-9]", out):
+    if scn in ("tcp", "ws") and re.search(r"tput\d+/[1-9]", out):
         what["body"] = "a PUT handler on a TCP session was given a payload that is not the payload sent (%s)" % re.search(r"tput\d+/\d+", out).group(0)
     m = re.search(r"body(\d+)/(\d+),put(\d+)/(\d+)", out)
     if m and (int(m.group(2)) or int(m.group(4))):
